@@ -12,20 +12,26 @@ rpartition instead of the code's split/pop cascade) and `rfc_parse` (RFC 6763 se
 """
 from __future__ import annotations
 
+import collections
 import itertools
 import json
+import re
 
 from . import common as C
 
 TRUSTED = [
     "C19: a Python str is modelled as a list of Unicode scalar values; str.encode('utf-8') / str(value) are CPython's "
-    "(the harness encodes str keys/values before handing them to the model)",
+    "(the harness encodes str keys/values before handing them to the model, with their type tags; a str with a lone surrogate is "
+    "handed over as a token without bytes)",
     "C19: the `re` module is modelled only for the pattern subset `^?[class]+?($|\\Z)?` without flags (lean/Zc/Model/Name.lean: parsePat/reSearch)",
     "C19: lru_cache on service_type_name is assumed transparent",
+    "C19: .properties is read once, when the object is built; that an all-bytes dictionary is handed back as the caller's own live object "
+    "(compared as one bit) is a reading, not a violation: the property speaks of the dictionary given",
 ]
 ASSUMPTIONS = [
-    "C19 TXT round trip is claimed for dictionaries satisfying RFC 6763 section 6.4: keys non-empty, without '=', distinct "
-    "(case-insensitively for the RFC reader), every key[=value] item at most 255 bytes; values str/bytes/None",
+    "C19 TXT round trip is demanded ENTRY BY ENTRY: of every entry whose key has no '=', is not the part before the first '=' of another entry's "
+    "key and does not have the same bytes as another entry's key (for the RFC reader also: is not empty and not equal to another key up to ASCII case); "
+    "every key[=value] item at most 255 bytes; values str/bytes/None; strs that are Unicode text (a lone surrogate -> UnicodeEncodeError, finding D33)",
     "C19 name validation is claimed for strings of Unicode scalar values (no lone surrogates)",
 ]
 
@@ -125,7 +131,7 @@ def rfc_parse(text: bytes):
 
 
 def to_bytes(x):
-    return x.encode("utf-8") if isinstance(x, str) else x
+    return x.encode("utf-8", "surrogatepass") if isinstance(x, str) else x
 
 
 def expected_props(items):
@@ -224,11 +230,14 @@ def impl_txt(items):
     from zeroconf import ServiceInfo
 
     try:
-        info = ServiceInfo(T0, N0, properties=dict(items))
+        given = dict(items)
+        info = ServiceInfo(T0, N0, properties=given)
         text = info.text
-        props = pairs_of(info.properties)
+        got = info.properties
+        props = pairs_of(got)
         fresh = pairs_of(ServiceInfo(T0, N0, properties=text).properties) if type(text) is bytes else [(("<text is not bytes>",), None)]
-        return ("ok", text, props, fresh)
+        # 5th: is `.properties` the caller's own (live) dictionary?  (info.py:388-394: yes iff no str was involved)
+        return ("ok", text, props, fresh, got is given)
     except Exception as ex:  # noqa: BLE001
         return ("err", type(ex).__name__)
 
@@ -245,7 +254,15 @@ def impl_dec(text):
 # ------------------------------------------------------------------------------------------
 # generators
 
-SVC_GOOD = ["_http", "_a", "_x-y", "_a1", "_1a", "_ipp-tls", "_Z", "_a" + "b" * 14, "_0-a-9"]
+SVC_GOOD = ["_http", "_a", "_x-y", "_a1", "_1a", "_ipp-tls", "_Z", "_a" + "b" * 14, "_0-a-9", "_mqtt",
+            # every letter and digit of the service-name alphabet occurs in a valid label (a hole in a character class
+            # -- `[A-Za-ln-z0-9-]` -- is then seen with a concrete name, not only by the pattern lemma)
+            "_abcdefghijklmno", "_pqrstuvwxyz0123", "_ABCDEFGHIJKLMNO", "_PQRSTUVWXYZ4567", "_x89"]
+# ASCII punctuation an instance label may contain ("punctuation -- including dots"), combining marks, format characters,
+# non-ASCII white space and C1 controls (only 0x00-0x1F and 0x7F are forbidden)
+PUNCT = "!\"#$%&'()*+,/:;<=>?@[\\]^`{|}~"
+INST_PUNCT = ["a\\b", "\\", "it's \"q\"", "a/b@c", "(x),;%&*+!?#$<>|", "[]{}^~`:", "e\u0301", "a\u0308\u0323 z", "\u200d", "\u00a0", "x\u2028y", "\u0085",
+              "50% off!", "C:\\dir", "a\\.b", "<tag>", "k=v&k2=v2", "\u0e01\u0e34", "\u202eabc"]
 PROTOS = ["_tcp", "_udp"]
 # non-ASCII characters that turn INTO ASCII letters/digits under case mapping, case-insensitive matching, casefold or
 # Unicode digit tests: U+017F long s (upper -> S, re.I matches [a-z]), U+212A Kelvin sign (lower -> k, re.I matches),
@@ -254,17 +271,23 @@ PROTOS = ["_tcp", "_udp"]
 CASEMAP = ["\u017f", "\u212a", "\u0130", "\u0131", "\u00df", "\ufb01", "\uff21", "\u00b2", "\u0663"]
 
 INST_GOOD = ["Kelvin \u212a", "\u017ftra\u00dfe \u0130\u0131", "foo", "My Printer", "é", "日本語", "😀 office", "a.b", "a.b.c", "x" * 63, "é" * 31 + "x", "日" * 21, "😀" * 15 + "abc",
-             "_foo", "1", " ", "a=b", "_sub2", "sub", "_tcp", "x._tcp", "local", "A" * 62]
+             "_foo", "1", " ", "a=b", "_sub2", "sub", "_tcp", "x._tcp", "local", "A" * 62] + INST_PUNCT
+
+
+_INST_W = [1, 1, 1, 2, 3, 4]
+# per UTF-8 width: 70 % plain ASCII, 30 % ASCII punctuation; e acute / combining acute / NBSP / NEL; CJK / LINE SEPARATOR / ZWJ; an emoji
+_INST_ALPH = {1: "aZ 9_-" * 12 + PUNCT, 2: "é\u0301\u00a0\u0085", 3: "日\u2028\u200d", 4: "😀"}
 
 
 def inst_of_bytes(rng, nbytes):
     """an instance label of exactly nbytes UTF-8 bytes from mixed-width characters"""
     out, n = [], 0
     while n < nbytes:
-        w = rng.choice([1, 1, 1, 2, 3, 4])
+        w = _INST_W[int(rng.random() * 6)]
         if n + w > nbytes:
             w = 1
-        out.append({1: rng.choice("aZ 9_-"), 2: "é", 3: "日", 4: "😀"}[w])
+        alph = _INST_ALPH[w]
+        out.append(alph[int(rng.random() * len(alph))])
         n += w
     return "".join(out)
 
@@ -275,7 +298,7 @@ def gen_svc(rng, strict_hint):
     if r < 0.35:
         return rng.choice(SVC_GOOD), "ok"
     n = rng.choice([1, 2, 3, 8, 14, 15, 16, 17, 30])
-    body = [rng.choice("abcxyzABZ019") for _ in range(n)]
+    body = [rng.choice("abcxyzABZ019") if rng.random() < 0.5 else rng.choice(LETTERS + DIGITS) for _ in range(n)]
     if not any(c in LETTERS for c in body):
         body[rng.randrange(n)] = "q"
     tags = []
@@ -296,7 +319,7 @@ def gen_svc(rng, strict_hint):
         elif m == "under":
             body[rng.randrange(n)] = "_"
         elif m == "bad":
-            body[rng.randrange(n)] = rng.choice([" ", "é", "\n", "\x00", "\x7f", "/", "@", "[", "`", "{", ":", "Ｚ", "٣"] + CASEMAP)
+            body[rng.randrange(n)] = rng.choice([" ", "é", "\n", "\x00", "\x7f", "/", "@", "[", "`", "{", ":", "Ｚ", "٣", "\u0301"] + list(PUNCT) + CASEMAP)
         elif m == "casemap":
             # one look-alike in an otherwise valid label, or a label whose ONLY "letter" is the look-alike
             if rng.random() < 0.5:
@@ -338,7 +361,9 @@ def gen_prefix(rng):
         return rng.choice(["", ".", ".a", "a.", "a..b", "..", "a.", ". "]), "inst-dots"
     # subtype forms
     sub = rng.choice(["_printer", "x", "a.b", "", ".", ".x", "x.", "x..y", "_sub", "é", "\x00", inst_of_bytes(rng, rng.choice([58, 63, 64])),
-                      "_sub._sub", "a._sub"])
+                      "_sub._sub", "a._sub",
+                      # a dotted <sub>: the 63-byte / control-character rule covers ALL of it, not its first component
+                      "a.\x00", "ok.b\x7f", "x.\x1f.y", "a." + inst_of_bytes(rng, rng.choice([60, 61, 62, 64])), "a.b." + "x" * rng.choice([59, 60, 70])])
     form = rng.choice(["%s._sub", "%s._sub", "%s._sub", "%s_sub", "%s._Sub", "%s._sub.", "%s._subx", "%s._sub._sub"])
     p = form % sub
     if rng.random() < 0.15:
@@ -382,7 +407,7 @@ def gen_length_boundary(rng):
     return s, "len%d" % len(s)
 
 
-ALPH = list("abzAZ019-_. ") + CASEMAP[:4] + ["\n", "\x00", "\x7f", "é", "日", "😀", "_tcp", "_udp", "local", "_sub", "._tcp.local.", ".local.", "._sub.", "--"]
+ALPH = list("abzAZ019-_. mM\\/@'\"!(*") + ["\u0301", "\u00a0"] + CASEMAP[:4] + ["\n", "\x00", "\x7f", "é", "日", "😀", "_tcp", "_udp", "local", "_sub", "._tcp.local.", ".local.", "._sub.", "--"]
 
 
 def gen_random(rng):
@@ -408,14 +433,73 @@ def exhaustive_names(maxlen):
                 yield lab + "._a._udp.local."
 
 
+# keys and values with leading / trailing white space (RFC 6763 6.4: spaces in a key are significant), str and bytes;
+# `str.strip()` also removes U+00A0, U+3000, U+2003, U+0085 and U+001C-U+001F, `bytes.strip()` ASCII white space only
+WS_KEYS = [" k", "k ", " k ", "\tk", "k\n", " ", "\u00a0k", "\u3000k\u2003", "k\u0085", "\x1fk", b" k", b"k ", b"\tk\n", b" ", b"\x00k", b"\x0bk\x0c",
+           "k", b"k2 ", "k2", " K"]
+
+
+def gen_dict_big(rng):
+    """a dictionary whose TXT form has a chosen total size -- around the sizes at which an implementation might cut
+    (255/256 bytes, 1300 = RFC 6763 6.2's recommended maximum, one Ethernet datagram, 8966, the 65535-byte rdata limit)
+    -- made of many small, a few large or mixed entries; keys are distinct and well-formed"""
+    target = rng.choice([255, 256, 400, 512, 1024, 1299, 1300, 1301, 1400, 1460, 1472, 2048, 4096, 8192, 8966, 9000, 16384, 32768, 65535, 65536, 70000])
+    target += rng.choice([0, 0, -1, 1, -7, 13])
+    # many small entries only up to 9000 bytes (the model's association lists are quadratic in the number of entries)
+    style = rng.choice(["small", "large", "mixed", "max"] if target <= 9100 else ["large", "mixed", "max"])
+    items, total, i = [], 0, 0
+    while total < target:
+        room = target - total - 1          # bytes left for this item (without its length octet)
+        if room <= 0:
+            break
+        if style == "small":
+            want = rng.choice([1, 2, 5, 9, 12, 20])
+        elif style == "large":
+            want = rng.choice([200, 250, 253, 254, 255])
+        elif style == "max":
+            want = 255
+        else:
+            want = rng.choice([1, 3, 8, 30, 100, 200, 255])
+        key = "%x" % i
+        want = max(len(key), min(want, room, 255))
+        kt = rng.random() < 0.5
+        if want == len(key):
+            k, v = key, None
+        else:
+            vlen = want - len(key) - 1
+            k = key
+            v = rng.choice(["v", "=", "x"]) * vlen if rng.random() < 0.5 else bytes([rng.choice([118, 0, 255, 61])]) * vlen
+        items.append((k if kt else k.encode(), v))
+        total += 1 + want
+        i += 1
+    return items
+
+
+SURROGATE_STRS = ["\ud800", "k\udfff", "\udc80v", "a\ud83d", "\udbff\udbff"]
+
+
+def gen_dict_surrogate(rng):
+    """a small dictionary in which one str key or value holds a lone surrogate (a Python str that is not Unicode text)"""
+    items = gen_dict_typed(rng)[:2]
+    bad = rng.choice(SURROGATE_STRS)
+    if rng.random() < 0.5 or not items:
+        items.insert(rng.randrange(len(items) + 1), (bad, rng.choice([None, "v", b"w", ""])))
+    else:
+        i = rng.randrange(len(items))
+        items[i] = (items[i][0], bad)
+    return items
+
+
 def gen_dict(rng):
     """a list of (key, value) pairs with distinct python keys (str and bytes keys are different dict keys)"""
     n = rng.choice([0, 1, 1, 2, 3, 4, 6])
     items, used = [], set()
     for _ in range(n):
         r = rng.random()
-        if r < 0.5:
+        if r < 0.42:
             k = rng.choice(["a", "b", "key", "path", "txtvers", "A", "Key", "é", "日本", "k k", "x" * 9, "x" * rng.choice([100, 200, 253, 254, 255, 256])])
+        elif r < 0.5:
+            k = rng.choice(WS_KEYS)
         elif r < 0.9:
             k = rng.choice([b"a", b"b", b"key", b"A", b"\xff\x00", b"\xc3\xa9", b"path", b"k" * rng.choice([1, 127, 128, 254, 255, 256])])
         elif r < 0.95:
@@ -432,9 +516,9 @@ def gen_dict(rng):
         elif r < 0.35:
             v = rng.choice(["", b""])
         elif r < 0.6:
-            v = rng.choice(["1", "value", "é", "a=b", "=", "/x/y", "true", "日本"])
+            v = rng.choice(["1", "value", "é", "a=b", "=", "/x/y", "true", "日本", " v", "v ", " ", "\n", "\tv\r\n", "\u00a0v\u3000", "e\u0301"])
         elif r < 0.85:
-            v = rng.choice([b"1", b"value", b"\xff", b"\x00", b"a=b", b"=", b"\xc3\xa9", b"\xc3"])
+            v = rng.choice([b"1", b"value", b"\xff", b"\x00", b"a=b", b"=", b"\xc3\xa9", b"\xc3", b" v ", b" ", b"\x00v\x00", b"\x0bv\x0c"])
         else:
             # item length at the 255-byte limit: len(key) + 1 + len(value) in {254, 255, 256}
             room = rng.choice([254, 255, 256]) - kl - 1
@@ -548,11 +632,15 @@ def name_obs_str(obs):
 
 
 def txt_line(items):
-    """the dictionary with its Python types: per entry <key is str> <key bytes> <has value> <value is str> <value bytes>;
+    """the dictionary with its Python types: per entry <key type> <key bytes> <has value> <value type> <value bytes>, type 0 =
+    bytes, 1 = str (its UTF-8 bytes follow), 2 = str with a lone surrogate (no UTF-8 form; the bytes are ignored);
     whether a str was involved (and hence what .properties returns) is computed by the model, not here"""
+    def ty(x):
+        return "0" if not isinstance(x, str) else ("2" if has_surrogate(x) else "1")
+
     toks = ["c19t", str(len(items))]
     for k, v in items:
-        toks += [C.b01(isinstance(k, str)), C.hx(to_bytes(k)), C.b01(v is not None), C.b01(isinstance(v, str)), C.hx(to_bytes(v) if v is not None else b"")]
+        toks += [ty(k), C.hx(to_bytes(k)), C.b01(v is not None), ty(v), C.hx(to_bytes(v) if v is not None else b"")]
     return " ".join(toks)
 
 
@@ -574,8 +662,11 @@ def items_unjson(js):
     return [(dec(k), dec(v)) for k, v in js]
 
 
+_SURROGATE = re.compile("[\ud800-\udfff]")
+
+
 def has_surrogate(s):
-    return any(0xD800 <= ord(ch) <= 0xDFFF for ch in s)
+    return _SURROGATE.search(s) is not None
 
 
 def classify_name_violation(s, strict, obs, want):
@@ -612,7 +703,8 @@ def oracle_body_empty(s):
 def wf_class(exp):
     """(class, level) naming why a dictionary is outside RFC 6763 section 6.4 -- level "limit" (an item over 255 bytes: outside
     the property's quantifier), "lib" (no reader can recover it), "rfc" (only a reader that follows section 6.4 to the letter
-    cannot) -- or None for a well-formed dictionary"""
+    cannot) -- or None for a well-formed dictionary.  Only used to rank replays and to label the evidence; the verdict is
+    per ENTRY (`entry_classes`)."""
     keys = [k for k, _ in exp]
     if any(len(k) + (0 if v is None else 1 + len(v)) > 255 for k, v in exp):
         return ("item-over-255-bytes", "limit")
@@ -627,73 +719,164 @@ def wf_class(exp):
     return None
 
 
+def entry_classes(exp):
+    """Per-entry reading of RFC 6763 section 6.4 for a dictionary (already as bytes).  Returns
+       present  -- the classes of ill-formed ENTRIES the dictionary contains (each is a known finding),
+       bad_lib  -- the keys (bytes) whose read-back the library's reader cannot be held to because of those entries,
+       bad_rfc  -- the case-folded keys an RFC 6763 reader cannot be held to.
+    An entry whose key contains '=' is written as an item that every reader splits at the FIRST '=': it spoils its own key
+    and the key that is its part before that '=' (which may be the key of another, well-formed entry: first one wins).
+    Two entries whose keys are the same bytes (a str and a bytes key) spoil that key.  For the RFC reader also: the empty
+    key (such an item is ignored) and keys that are equal up to ASCII case.  EVERY OTHER entry must be read back."""
+    keys = [k for k, _ in exp]
+    eff = [k.partition(b"=")[0] for k in keys]           # what a reader takes as the key of this entry's item
+    present = set()
+    bad_lib = set()
+    for k, e in zip(keys, eff):
+        if b"=" in k:
+            present.add("key-contains-equals")
+            bad_lib.add(k)
+            bad_lib.add(e)
+    clean = [k for k in keys if b"=" not in k]
+    for k, c in collections.Counter(clean).items():
+        if c > 1:
+            present.add("keys-collide-after-encoding")
+            bad_lib.add(k)
+    bad_rfc = {k.lower() for k in bad_lib}
+    if b"" in clean:
+        present.add("empty-key")
+        bad_rfc.add(b"")
+    for f, c in collections.Counter(k.lower() for k in set(clean)).items():
+        if f not in bad_rfc and c > 1:
+            present.add("keys-differ-only-in-case")
+            bad_rfc.add(f)
+    return present, bad_lib, bad_rfc
+
+
 FINDING_WHAT = {
     "key-contains-equals": "a key containing '=' cannot be carried by a TXT record: it is split at its first '=' when read back (RFC 6763 6.4 forbids such keys; the library does not reject them)",
     "keys-collide-after-encoding": "a str key and a bytes key with the same UTF-8 bytes are two dictionary entries but one TXT attribute: only the first is read back",
     "empty-key": "an item with an empty key is kept by the library but must be ignored by an RFC 6763 reader (6.4: missing key)",
     "keys-differ-only-in-case": "keys that differ only in ASCII case are distinct for the library but one attribute for an RFC 6763 reader (6.4: keys are case-insensitive, first wins)",
+    "str-with-lone-surrogate": "a str key or value holding a lone surrogate (not Unicode text, no UTF-8 form) makes ServiceInfo(properties=...) raise UnicodeEncodeError: the dictionary is rejected, nothing is encoded",
 }
+LIB_CLASSES = ("key-contains-equals", "keys-collide-after-encoding")
+RFC_CLASSES = ("empty-key", "keys-differ-only-in-case")
+
+
+def dict_has_surrogate(items):
+    return any(isinstance(x, str) and has_surrogate(x) for kv in items for x in kv)
+
+
+def _hashable(k):
+    try:
+        hash(k)
+        return True
+    except TypeError:
+        return False
+
+
+def _without(props, bad, fold=False):
+    """the entries of an observed/expected list whose key is not spoilt (`bad`); keys of any type are kept"""
+    out = []
+    for k, v in props:
+        kk = k.lower() if fold and type(k) is bytes else k
+        if _hashable(kk) and kk in bad:
+            continue
+        out.append((k, v))
+    return out
 
 
 def txt_violations(items, obs):
     """stage O for one dictionary: list of (sig, what, case).
 
-    For every dictionary within the 255-byte item limit: `.text` is bytes and `.properties` (and the library's decode of
-    `.text`) hold bytes keys and bytes-or-None values.  For a well-formed one: `.properties`, the library's decode of
-    `.text` and the RFC 6763 reader all give back the dictionary.  A dictionary outside RFC 6763 section 6.4 cannot round-trip
-    (Lean: C19_txt_*_refuted); that is reported under one signature per class (known findings), nothing else is demanded
-    of the readers it defeats."""
-    exp = expected_props(items)
+    For every dictionary within the 255-byte item limit: no exception, `.text` is bytes and well-framed, `.properties` (and
+    the library's decode of `.text`) hold bytes keys and bytes-or-None values.  Then, ENTRY BY ENTRY: every entry that RFC
+    6763 section 6.4 allows -- and that is not shadowed by an entry it forbids (`entry_classes`) -- must be given back by
+    `.properties`, by the library's decode of `.text` and by the independent RFC 6763 reader, and nothing else may appear.
+    Only the forbidden entries themselves cannot round-trip (Lean: C19_txt_*_refuted); that is reported under one signature
+    per entry class (known findings) and only when such an entry is in fact not read back."""
     case = {"stream": "txt", "items": items_json(items)}
     out = []
+    if dict_has_surrogate(items):
+        # not Unicode text: no "keys and values as bytes" to compare with.  Known finding iff the constructor raises
+        # UnicodeEncodeError; any other exception is fresh; an implementation that accepts it is not judged further.
+        if obs[0] == "err" and obs[1] == "UnicodeEncodeError":
+            return [("C19:txt-str-with-lone-surrogate", FINDING_WHAT["str-with-lone-surrogate"], case)]
+        lim = wf_class(expected_props(items))
+        if lim and lim[1] == "limit":
+            return out  # also has an item over 255 bytes: outside the quantifier, whichever exception comes first
+        if obs[0] == "err":
+            return [("C19:txt-encode-raises:%s" % obs[1], "a properties dictionary with a lone-surrogate str raised %s" % obs[1], case)]
+        return out
+    exp = expected_props(items)
     cls = wf_class(exp)
     if cls and cls[1] == "limit":
         return out
     if obs[0] == "err":
         return [("C19:txt-encode-raises:%s" % obs[1], "a properties dictionary whose items fit in 255 bytes raised %s" % obs[1], case)]
-    _, text, props, fresh = obs
+    _, text, props, fresh = obs[:4]
     if type(text) is not bytes:
         return [("C19:text-not-bytes", ".text is %s, not bytes" % type(text).__name__, dict(case, text=text_hex(text)))]
-    case = dict(case, text=text.hex())
+    case = dict(case, text=text.hex() if len(text) <= 4096 else text[:4096].hex() + "...(%d bytes)" % len(text))
     # "keys and values (as bytes ...)": what .properties hands back must be bytes keys and bytes-or-None values
     bad = not_bytes(props)
     if bad:
         out.append(("C19:properties-not-bytes",
                     ".properties returns %s for key %r: keys and values must be bytes (the TXT bytes are %r)"
-                    % (("the %s %r" % (type(bad[0][1]).__name__, bad[0][1])) if type(bad[0][0]) is bytes else "a non-bytes key", bad[0][0], text),
+                    % (("the %s %r" % (type(bad[0][1]).__name__, bad[0][1])) if type(bad[0][0]) is bytes else "a non-bytes key", bad[0][0], text[:200]),
                     dict(case, got=props_str(props, False))))
     if not_bytes(fresh):
         out.append(("C19:decoded-properties-not-bytes", "decoding .text in the library yields non-bytes keys/values", dict(case, got=props_str(fresh, False))))
+    present, bad_lib, bad_rfc = entry_classes(exp)
     got = rfc_parse(text)
-    lib_ok = norm(props) == norm(exp) and norm(fresh) == norm(exp) and norm(props) == norm(fresh)
-    rfc_ok = got is not None and exact(got) == exact(exp) and norm(props) == norm(got)
-    if cls and cls[1] == "lib":
-        if not (lib_ok and rfc_ok):
-            out.append(("C19:txt-" + cls[0], FINDING_WHAT[cls[0]], dict(case, got=props_str(props, False), decoded=props_str(fresh, False))))
-        return out
-    # .properties against the dictionary, against the library's own decode of the TXT bytes, and against the RFC reader
-    if norm(props) != norm(exp):
-        out.append(("C19:txt-properties-differ", ".properties does not give back the dictionary (same keys and values as bytes; empty value = no value)",
-                    dict(case, got=props_str(props, False))))
-    if norm(props) != norm(fresh):
-        out.append(("C19:properties-disagree-with-library-decode", ".properties differs from the library's own decode of .text",
-                    dict(case, got=props_str(props, False), decoded=props_str(fresh, False))))
-    if norm(fresh) != norm(exp):
-        out.append(("C19:txt-library-decode-differs", "decoding .text in the library does not give back the dictionary", dict(case, got=props_str(fresh, False))))
-    if cls and cls[1] == "rfc":
-        if not rfc_ok:
-            out.append(("C19:txt-" + cls[0], FINDING_WHAT[cls[0]], dict(case, rfc="bad" if got is None else props_str(got, False))))
-        return out
-    if got is None or exact(got) != exact(exp):
-        out.append(("C19:txt-rfc6763-decode-differs", "an RFC 6763 section 6 reader does not recover the dictionary from .text", case))
-    if got is not None and norm(props) != norm(got):
-        out.append(("C19:properties-disagree-with-rfc6763", ".properties differs from what an RFC 6763 section 6 reader finds in .text",
-                    dict(case, got=props_str(props, False), rfc=props_str(got, False))))
+    note = "" if not present else " (judged on the entries RFC 6763 6.4 allows; the dictionary also has: %s)" % ", ".join(sorted(present))
+    small = lambda pr: props_str(pr, False) if len(pr) <= 12 else "%d entries" % len(pr)  # noqa: E731
+    # ---- the library's two readers, on the entries that can be carried
+    e_lib = _without(exp, bad_lib)
+    p_lib, f_lib = _without(props, bad_lib), _without(fresh, bad_lib)
+    if norm(p_lib) != norm(e_lib):
+        out.append(("C19:txt-properties-differ", ".properties does not give back the dictionary (same keys and values as bytes; empty value = no value)" + note,
+                    dict(case, got=small(props))))
+    if norm(p_lib) != norm(f_lib):
+        out.append(("C19:properties-disagree-with-library-decode", ".properties differs from the library's own decode of .text" + note,
+                    dict(case, got=small(props), decoded=small(fresh))))
+    if norm(f_lib) != norm(e_lib):
+        out.append(("C19:txt-library-decode-differs", "decoding .text in the library does not give back the dictionary" + note, dict(case, got=small(fresh))))
+    # ---- the independent RFC 6763 reader
+    if got is None:
+        out.append(("C19:txt-rfc6763-decode-differs", ".text is not a sequence of length-prefixed strings (an RFC 6763 section 6 reader runs off its end)", case))
+    else:
+        e_rfc = [(k, v) for k, v in _without(exp, bad_rfc, fold=True) if b"=" not in k]
+        g_rfc = _without(got, bad_rfc, fold=True)
+        p_rfc = _without(_without(props, bad_lib), bad_rfc, fold=True)
+        if exact(g_rfc) != exact(e_rfc):
+            out.append(("C19:txt-rfc6763-decode-differs", "an RFC 6763 section 6 reader does not recover the dictionary from .text" + note, dict(case, rfc=small(got))))
+        if norm(p_rfc) != norm(g_rfc):
+            out.append(("C19:properties-disagree-with-rfc6763", ".properties differs from what an RFC 6763 section 6 reader finds in .text" + note,
+                        dict(case, got=small(props), rfc=small(got))))
+    # ---- the forbidden entries themselves: known findings, reported when such an entry is in fact not read back
+    lib_ok = norm(props) == norm(exp) and norm(fresh) == norm(exp)
+    rfc_ok = got is not None and exact(got) == exact(exp)
+    for c in LIB_CLASSES:
+        if c in present and not (lib_ok and rfc_ok):
+            out.append(("C19:txt-" + c, FINDING_WHAT[c], dict(case, got=small(props), decoded=small(fresh))))
+    for c in RFC_CLASSES:
+        if c in present and not rfc_ok:
+            out.append(("C19:txt-" + c, FINDING_WHAT[c], dict(case, rfc="bad" if got is None else small(got))))
     return out
 
 
 def case_size(case):
     return len(json.dumps(case))
+
+
+def around_diff(a, b, width=300):
+    """`a`, shortened to the neighbourhood of its first difference from `b` when it is long (large TXT records)"""
+    if len(a) <= 2 * width:
+        return a
+    i = next((j for j, (x, y) in enumerate(zip(a, b)) if x != y), min(len(a), len(b)))
+    return "%s...[%d chars, first difference at %d]...%s" % (a[:60], len(a), i, a[max(60, i - width // 2): i + width])
 
 
 # ------------------------------------------------------------------------------------------
@@ -785,6 +968,22 @@ def run(ctx):
             dicts.append(items_unjson(body["items"]))
     dicts += [[], [("a", None)], [("a", "")], [(b"a", b"")], [("a", "1"), (b"a", b"2")], [("a", "1"), ("A", "2")], [("", "x")], [("a=b", "c")],
               [("k" * 255, None)], [("k" * 256, None)], [("k" * 253, "")], [("k" * 253, "v")], [("k" * 254, "")], [(b"k" * 254, b"")], [(b"k", b"v" * 253)], [(b"k", b"v" * 254)]]
+    # white space in keys and values is significant (RFC 6763 6.4): singly, and next to the stripped spelling of the same key
+    dicts += [[(k, "v")] for k in WS_KEYS] + [[(k, None)] for k in WS_KEYS[:6]] + [[("k", "1"), (" k", "2"), ("k ", "3"), (b"\tk\n", b"4")], [(b"k", b" v "), ("j", " v ")],
+                                                                                  [("a=b", "c"), ("path", "/x"), ("id", "7")], [(b"a=b", b"c"), (b"path", b"/x")],
+                                                                                  [("a", "1"), (b"a", b"2"), ("z", "26")], [("a=b", "c"), ("a", "1"), ("z", None)]]
+    # large TXT records: the total is not limited by the property (only each item, 255 bytes); RFC 6763 6.2 merely *recommends*
+    # <= 1300 bytes.  6 x 254, 8 x 251, 40 small, 300 tiny, 255 items of 255 bytes (65280 bytes, just under the rdata limit)
+    dicts += [[("%dk" % i + "x" * 250, "v") for i in range(6)], [(b"%dk" % i + b"y" * 244, b"vvvv") for i in range(8)], [("k%d" % i, "v%d" % i) for i in range(40)],
+              [("%x" % i, None if i % 3 else b"") for i in range(300)], [("%02x" % i + "z" * 250, "vv") for i in range(255)]]
+    # str keys / values that are not Unicode text
+    dicts += [[("\ud800", "v")], [("k", "\ud800")], [(b"k", "\udfff")], [("\udc80", None)], [("a", "1"), ("b\ud83d", "2")], [("k" * 300, "\ud800")]]
+    rng = C.rng_for(seed, "c19", "txt-big")
+    for _ in range(B(50, 1500)):
+        dicts.append(gen_dict_big(rng))
+    rng = C.rng_for(seed, "c19", "txt-surrogate")
+    for _ in range(B(300, 6000)):
+        dicts.append(gen_dict_surrogate(rng))
     dicts += list(type_matrix())
     rng = C.rng_for(seed, "c19", "txt-typed")
     for _ in range(B(10000, 150000)):
@@ -817,8 +1016,11 @@ def run(ctx):
     res.rule = ("names: corpus + hand-picked + EXHAUSTIVE service labels of length <= 3 over {a,Z,1,-,_,.,\\n,e-acute,DEL,U+017F,U+212A,U+0130} in 7 carrier forms x both strict modes "
                 "+ grammar-generated (valid skeleton, 0-3 rule violations of the service label, instance/subtype prefix with byte lengths 61-66 in mixed-width "
                 "characters, control characters, dots, _sub variants, 17 odd trailers) + total-length boundary 254-258/300 + random strings <= 300; "
+                "ASCII punctuation, combining marks, format characters and non-ASCII white space in instance labels, service labels over all 62 letters/digits; "
                 "constructor type/name pairs; property dictionaries (str/bytes keys, str/bytes/None/empty values, item lengths 254-256, colliding, "
-                "'='-containing and empty keys); raw TXT bytes (well-formed, truncated, random). non-trivial = distinct (stream, tag, mode, outcome) classes")
+                "'='-containing and empty keys, keys/values with edge white space, str with lone surrogates, TXT totals 255 B - 70 kB steered onto "
+                "1300/1460/8966/65535), judged entry by entry; raw TXT bytes (well-formed, truncated, random). non-trivial = distinct (stream, tag, mode, "
+                "outcome, size class) classes")
 
     # ---------------- evaluate names
     mi = 0
@@ -897,9 +1099,18 @@ def run(ctx):
         exp = expected_props(items)
         case = {"stream": "txt", "items": items_json(items)}
         maxitem = max([len(k) + (0 if v is None else 1 + len(v)) for k, v in exp] or [0])
-        res.nontriv("t/%d/%s/%s/%s/%s/%s" % (min(len(items), 3), wf_props(exp), wf_props(exp, True), obs[0] if obs[0] == "ok" else obs[1],
-                                             "lim" if maxitem >= 254 else "", dict_types(items)))
+        total = sum(1 + len(k) + (0 if v is None else 1 + len(v)) for k, v in exp)
+        tb = "<=255" if total <= 255 else "<=1300" if total <= 1300 else "<=9000" if total <= 9000 else "<=65535" if total <= 65535 else ">65535"
+        sur = dict_has_surrogate(items)
+        ws = any(type(x) in (str, bytes) and x != x.strip() for kv in items for x in kv[:1])
+        res.nontriv("t/%d/%s/%s/%s/%s/%s/%s/%s" % (min(len(items), 3), wf_props(exp), wf_props(exp, True), obs[0] if obs[0] == "ok" else obs[1],
+                                                   "lim" if maxitem >= 254 else "", dict_types(items), tb, "sur" if sur else "ws" if ws else ""))
         res.count("txt-types:" + dict_types(items))
+        res.count("txt-total:" + tb)
+        if sur:
+            res.count("txt-lone-surrogate-str")
+        if ws:
+            res.count("txt-key-with-edge-whitespace")
         res.count("txt-wf" if wf_props(exp, True) else "txt-not-wf")
         for v in txt_violations(items, obs):
             res.count("txt-violations")
@@ -912,11 +1123,12 @@ def run(ctx):
             if obs[0] == "err":
                 mine = "err %s" % obs[1]
             else:
-                _, text, props, fresh = obs
+                _, text, props, fresh, alias = obs
                 rp = rfc_parse(text) if type(text) is bytes else None
-                mine = "ok %s L %s D %s R %s" % (tok(text, "!None"), props_str(props), props_str(fresh), "bad" if rp is None else props_str(rp))
+                mine = "ok %s L %s D %s R %s A %s" % (tok(text, "!None"), props_str(props), props_str(fresh), "bad" if rp is None else props_str(rp), C.b01(alias))
             if m != mine:
-                res.disagree("txt", case, mine, m)
+                res.disagree("txt", case if case_size(case) < 4000 else {"stream": "txt", "items": "%d entries, %d TXT bytes" % (len(items), total), "first": items_json(items[:3])},
+                             around_diff(mine, m), around_diff(m, mine))
         if idx == 20:
             res.sample({"properties": items_json(items), "text": text_hex(obs[1]) if obs[0] == "ok" else obs[1]})
 
